@@ -534,6 +534,7 @@ class Sym:
             return a * ratval(1 / c)
         if _DIVISION[0] == 'uf':
             # sound abstraction for universally quantified claims: 1/b is an arbitrary function of b
+            DENOMINATORS.append(b)
             return a * uninterpreted('recip')(b)
         return a / b
 
@@ -742,6 +743,7 @@ class Sym:
 
 _UF = {}
 _DIVISION = ['real']
+DENOMINATORS = []     # symbolic denominators seen in abstract_division mode (harnesses clear / read this)
 _PRODUCTS = [False]
 
 
